@@ -440,6 +440,18 @@ macro_rules! zst_seq_ops {
             assert!(zdrops() == d0 + 3 + $n && zlive() == $n * $m, "unflatten dropped or conjured zero-sized elements");
             drop(back);
             assert!(zdrops() == d0 + 3 + $n + $n * $m && zlive() == 0);
+            // ... and through the heap conversions (a zero-sized element has no bytes to copy and no block: lengths and drop counts are all there is)
+            let d1 = zdrops();
+            let v: Vec<TrZ> = trz_array::<$N>().into();
+            assert!(v.len() == $n && zlive() == $n && zdrops() == d1, "Vec::from(array) dropped or conjured zero-sized elements");
+            let back = GenericArray::<TrZ, $N>::try_from(v).ok().unwrap();
+            let bs: Box<[TrZ]> = back.into();
+            assert!(bs.len() == $n && zlive() == $n && zdrops() == d1, "Box<[T]>::from(array) dropped or conjured zero-sized elements");
+            let b = GenericArray::<TrZ, $N>::try_from_boxed_slice(bs).ok().unwrap();
+            let v2 = b.into_vec();
+            assert!(v2.len() == $n && zlive() == $n && zdrops() == d1, "into_vec dropped or conjured zero-sized elements");
+            drop(v2);
+            assert!(zdrops() == d1 + $n && zlive() == 0);
         }}
     };
 }
